@@ -107,7 +107,7 @@ func gate(tier string) map[string]int {
 		"uncle:included_by_ancestor": 20, "uncle:is_ancestor": 20, "uncle:dangling": 20, "uncle:bad_field": 100, "uncle:bad_seal": 20,
 		// batch
 		"batch_runs": 600, "batch_all_valid": 50, "batch_fault_at_0": 20, "batch_fault_at_1": 20, "batch_fault_at_last": 20,
-		"batch_fault_random_pos": 20, "batch_unknown_parent": 20, "batch_broken_link": 20, "batch_seal_fault": 20,
+		"batch_fault_random_pos": 20, "batch_unknown_parent": 10, "batch_broken_link": 20, "batch_seal_fault": 20,
 		"batch_known_prefix": 20, "batch_len_1": 10, "batch_len_ge_100": 10, "batch_multi_fault": 20,
 		"batch_first_failure_agrees": 300,
 		"gomaxprocs:1":               50, "gomaxprocs:2": 50, "gomaxprocs:3": 50, "gomaxprocs:4": 50, "gomaxprocs:8": 50, "gomaxprocs:16": 50,
